@@ -76,7 +76,15 @@ pub fn plan(ctx: &Ctx) -> (Vec<Plan>, serde_json::Value) {
 pub fn expand(p: &Plan, ctx: &Ctx, alphabet: &[Tok]) -> Vec<Input> {
     let mt = p.mt; let b = &p.msg;
     let mut out = vec![Input { mt, label: format!("canonical:{}", b.devs.join("+")), text: wrap(mt, &b.text_lf(), "lf") }];
-    if !p.expand { return out; }
+    if !p.expand {
+        // one-deviation messages: CRLF rendering and the non-canonical spellings of their fields only
+        if b.deviations == 1 {
+            out.push(Input { mt, label: format!("envelope:crlf:{}", b.devs.join("+")), text: wrap(mt, &b.text_lf(), "crlf") });
+            let toks = b.toks();
+            for (pos, o) in b.occs.iter().enumerate() { for (name, alt) in noncanon(&o.kind, &o.content) { let mut t = toks.clone(); t[pos].content = alt; out.push(Input { mt, label: format!("noncanon:{name}:{}", o.tag), text: wrap(mt, &tok::render_lf(&t), "lf") }); } }
+        }
+        return out;
+    }
     // envelope variants and non-canonical field spellings of the base message
     for w in &WRAPS[1..] { out.push(Input { mt, label: format!("envelope:{w}:{}", b.base), text: wrap(mt, &b.text_lf(), w) }); }
     let toks = b.toks();
